@@ -2,6 +2,7 @@ import GoCrypt.Props.KdfProps
 import GoCrypt.Props.C16
 import GoCrypt.Props.C03b
 import GoCrypt.Props.KdfIR
+import GoCrypt.Props.KdfIR2
 
 /-!
 # C03 — classic crypt(3) schemes compute the same hashes as the reference libcrypt
@@ -76,4 +77,32 @@ namespace GoCrypt.C03
 #print axioms GoCrypt.KdfIR.duplicate_ir_eq_model
 #print axioms GoCrypt.KdfIR.permute_ir_eq_model
 #print axioms GoCrypt.KdfIR.sha1_ir_eq_model
+-- the remaining KDF glue IS the current code (Props/KdfIR2.lean): second-generation hash-transcript IR (variables are slots, closures lifted) regenerated from
+-- descrypt.Key/EncodeInt/DecodeInt, desext.key/Key, des.Key, nthash.Key/encodePassword, sunmd5.Key (coin-toss loop), bcrypt.Key/encode (password rewriting, EksBlowfish glue)
+-- and the Key tails of md5/sha256/sha512/sha1, interpreted = the models the reference theorems above speak about, for all inputs
+#print axioms GoCrypt.KdfIR2.descrypt_key_ir_eq_model
+#print axioms GoCrypt.KdfIR2.descrypt_encodeInt_ir_eq_model
+#print axioms GoCrypt.KdfIR2.descrypt_decodeInt_ir_eq_model
+#print axioms GoCrypt.KdfIR2.desext_key_ir_eq_fold
+#print axioms GoCrypt.KdfIR2.desext_key_ir_eq_model
+#print axioms GoCrypt.KdfIR2.desext_key_tail_ir_eq_derive
+#print axioms GoCrypt.KdfIR2.des_key_tail_ir_eq_derive
+#print axioms GoCrypt.KdfIR2.nthash_key_tail_ir_eq_model
+#print axioms GoCrypt.KdfIR2.nthash_key_tail_ir_eq_derive
+#print axioms GoCrypt.KdfIR2.nthash_encodePassword_ir_eq_model
+#print axioms GoCrypt.KdfIR2.nthash_encodePassword_ir_eq_units
+#print axioms GoCrypt.KdfIR2.md5_key_tail_ir_eq_model
+#print axioms GoCrypt.KdfIR2.md5_key_tail_ir_eq_derive
+#print axioms GoCrypt.KdfIR2.sha256_key_tail_ir_eq_model
+#print axioms GoCrypt.KdfIR2.sha256_key_tail_ir_eq_derive
+#print axioms GoCrypt.KdfIR2.sha512_key_tail_ir_eq_model
+#print axioms GoCrypt.KdfIR2.sha512_key_tail_ir_eq_derive
+#print axioms GoCrypt.KdfIR2.sha1_key_tail_ir_eq_derive
+#print axioms GoCrypt.KdfIR2.sunmd5_key_tail_ir_eq_model
+#print axioms GoCrypt.KdfIR2.sunmd5_key_tail_ir_eq_derive
+#print axioms GoCrypt.KdfIR2.blowfishPrims_spec
+#print axioms GoCrypt.KdfIR2.bcrypt_rewrite_ir_eq_model
+#print axioms GoCrypt.KdfIR2.bcrypt_encode_ir_eq_model
+#print axioms GoCrypt.KdfIR2.bcrypt_ir_eq_bcryptDerive
+#print axioms GoCrypt.KdfIR2.bcrypt_key_tail_ir_eq_derive
 end GoCrypt.C03
